@@ -216,7 +216,9 @@ def ref_label_from_tags(tags, o):
         if t is None:
             return o.get("empty_label") or EMPTY
         if o.get("value_only") is False:
-            return AMBIG  # documentation does not say whether an explicit value_only=False is honoured here
+            # "**kwargs: additional keyword arguments passed to the tag-to-label conversion": an explicit value_only=False is
+            # the caller's choice and gives key-separator-value (only the DEFAULT for a selected tag is value only)
+            return ref_label_from_tag(t, o)
         return ref_label_from_tag(t, dict(o, value_only=True))
     if o.get("index") is not None:
         return ref_label_from_tag(tags[o["index"] % len(tags)], o)
